@@ -42,6 +42,14 @@ Four bounded-exhaustive drivers on the REAL implementation:
     must never decrease (tolerance 1e-9: a last-bit wobble of erfc is not
     reported), and ``is_available`` must never turn True again.
 
+Every public view of a member is a report: after every event a member handles (and for all members at fault
+instants and at the end of the run) the oracle reads get_member_state, alive_members / suspected_members /
+dead_members and the stats counters.  The never-DEAD, detection-bound and DEAD-not-followed-by-ALIVE clauses
+are evaluated on get_member_state AND on the name lists (a list-view finding is reported separately only when
+get_member_state does not break the same clause), and the views of one member must agree with each other at
+every observation point (``Membership/views-disagree/*``): two contradictory reports cannot both be right.
+Reading the views this often also makes lazily cached views get built early and go stale if not invalidated.
+
 What the statement does not say is not checked: how fast a member is declared
 DEAD (only "stops reporting it ALIVE"), what SUSPECT views do on a healthy
 network, whether suspicion is disseminated to everybody.
@@ -205,10 +213,10 @@ def run_cluster(chooser, cfg, fault=None, trace=None):
         node_set = set(map(id, nodes))
         view: dict[tuple[str, str], str] = {}
         timeline: list[tuple[int, str, str, str, str]] = []  # (t, observer, subject, state, via)
+        timeline_lists: list[tuple[int, str, str, str, str]] = []  # same, as read from the name lists
         announced = {nm: 0 for nm in names}  # highest incarnation announced about a member so far
         dead_inc: dict[tuple[str, str], int] = {}
         heard: set[tuple[str, str]] = set()  # (observer, sender): a heartbeat-bearing message arrived
-        findings: list[tuple[str, str]] = []
         seen_fp: set[str] = set()
         n_node_events = [0]
 
@@ -225,48 +233,96 @@ def run_cluster(chooser, cfg, fault=None, trace=None):
                 return True
             return fd.down_since is None
 
-        def observe(t, via):
-            for a in nodes:
-                an = a.name
-                if victim is not None and a is victim and fd.down_since is not None:
-                    continue  # a stopped member reports nothing
-                for bn in names:
-                    if bn == an:
-                        continue
-                    st = a.get_member_state(bn)
-                    if st is None:
-                        continue
-                    s = st.name
-                    key = (an, bn)
-                    old = view.get(key)
-                    if old == s:
-                        continue
-                    view[key] = s
-                    timeline.append((t, an, bn, s, via))
-                    if s == "DEAD":
-                        dead_inc.setdefault(key, inc_of(bn))
-                        # clause 1: no member ever marks a live member DEAD
-                        ever_down = victim is not None and bn == victim.name and (
-                            fd.down_since is not None or fd.up_since > 0)
-                        if is_live(bn, t) and not ever_down:
-                            fp = f"Membership/false-dead/via-{via}"
-                            if fp not in seen_fp:
-                                seen_fp.add(fp)
-                                findings.append((fp, f"N={N} interval={I}s suspicion={S}s phi={PHI}: at "
-                                                     f"t={t / SEC:.6f}s {an} marks the live member {bn} DEAD "
-                                                     f"(while handling {via})"))
-                    elif s == "ALIVE" and key in dead_inc:
-                        # clause 3: DEAD is not followed by ALIVE without a higher incarnation
-                        if inc_of(bn) <= dead_inc[key]:
-                            fp = f"Membership/dead-then-alive-same-incarnation/via-{via}"
-                            if fp not in seen_fp:
-                                seen_fp.add(fp)
-                                findings.append((fp, f"N={N} interval={I}s suspicion={S}s phi={PHI}: {an} had "
-                                                     f"reported {bn} DEAD (incarnation {dead_inc[key]}) and at "
-                                                     f"t={t / SEC:.6f}s reports it ALIVE again although no higher "
-                                                     f"incarnation of {bn} was ever announced (while handling {via})"))
-                        else:
-                            del dead_inc[key]
+        views = {"state": view, "lists": {}}
+        timelines = {"state": timeline, "lists": timeline_lists}
+        dead_incs = {"state": dead_inc, "lists": {}}
+        found_by = {"state": [], "lists": [], "consistency": []}
+
+        def note(channel, fp, desc):
+            if fp not in seen_fp:
+                seen_fp.add(fp)
+                found_by[channel].append((fp, desc))
+
+        def apply(channel, an, bn, s, t, via):
+            """One reported state of one public view ('state' = get_member_state, 'lists' = alive_members /
+            suspected_members / dead_members); clauses 1 and 3 are evaluated on every view."""
+            key = (an, bn)
+            vw = views[channel]
+            if vw.get(key) == s:
+                return
+            vw[key] = s
+            timelines[channel].append((t, an, bn, s, via))
+            dinc = dead_incs[channel]
+            how = "get_member_state" if channel == "state" else "the alive/suspected/dead_members lists"
+            if s == "DEAD":
+                dinc.setdefault(key, inc_of(bn))
+                # clause 1: no member ever marks a live member DEAD
+                ever_down = victim is not None and bn == victim.name and (
+                    fd.down_since is not None or fd.up_since > 0)
+                if is_live(bn, t) and not ever_down:
+                    fp = (f"Membership/false-dead/via-{via}" if channel == "state"
+                          else f"Membership/false-dead/listed-in-dead_members/via-{via}")
+                    note(channel, fp, f"N={N} interval={I}s suspicion={S}s phi={PHI}: at t={t / SEC:.6f}s {an} "
+                                      f"marks the live member {bn} DEAD in {how} (while handling {via})")
+            elif s == "ALIVE" and key in dinc:
+                # clause 3: DEAD is not followed by ALIVE without a higher incarnation
+                if inc_of(bn) <= dinc[key]:
+                    fp = (f"Membership/dead-then-alive-same-incarnation/via-{via}" if channel == "state"
+                          else f"Membership/dead-then-alive-same-incarnation/listed-views/via-{via}")
+                    note(channel, fp, f"N={N} interval={I}s suspicion={S}s phi={PHI}: {an} had reported {bn} DEAD "
+                                      f"(incarnation {dinc[key]}) in {how} and at t={t / SEC:.6f}s reports it ALIVE "
+                                      f"again although no higher incarnation of {bn} was ever announced "
+                                      f"(while handling {via})")
+                else:
+                    del dinc[key]
+
+        def observe_node(a, t, via):
+            """Read EVERY public view of one member (all of them are reports): get_member_state, the three
+            name lists and the stats counters."""
+            an = a.name
+            if victim is not None and a is victim and fd.down_since is not None:
+                return  # a stopped member reports nothing
+            sts = {}
+            for bn in names:
+                if bn == an:
+                    continue
+                st = a.get_member_state(bn)
+                if st is None:
+                    continue
+                sts[bn] = st.name
+                apply("state", an, bn, st.name, t, via)
+            try:
+                al, su, de = list(a.alive_members), list(a.suspected_members), list(a.dead_members)
+            except AttributeError:
+                return  # views renamed by a refactor: nothing to read
+            for bn, s0 in sts.items():
+                ls = "ALIVE" if bn in al else "DEAD" if bn in de else "SUSPECT" if bn in su else "ABSENT"
+                apply("lists", an, bn, ls, t, via)
+                if ls != s0:
+                    note("consistency", "Membership/views-disagree/lists-vs-get_member_state",
+                         f"N={N} interval={I}s suspicion={S}s phi={PHI}: at t={t / SEC:.6f}s (after {via}) {an} "
+                         f"reports {bn} as {s0} through get_member_state but as {ls} through alive_members="
+                         f"{al} suspected_members={su} dead_members={de}")
+            try:
+                stt = a.stats
+                counts = (stt.alive_count, stt.suspect_count, stt.dead_count)
+            except AttributeError:
+                return
+            vals = list(sts.values())
+            want = (vals.count("ALIVE"), vals.count("SUSPECT"), vals.count("DEAD"))
+            if counts != want:
+                note("consistency", "Membership/views-disagree/stats-vs-get_member_state",
+                     f"N={N} interval={I}s suspicion={S}s phi={PHI}: at t={t / SEC:.6f}s (after {via}) {an}.stats "
+                     f"counts (alive, suspect, dead)={counts} but get_member_state gives {want} ({sts})")
+
+        def observe(t, via, only=None):
+            # a member's views can only change while it handles an event: read the handling member after each
+            # event, everybody at fault instants and at the end of the run
+            if only is not None:
+                observe_node(only, t, via)
+            else:
+                for a in nodes:
+                    observe_node(a, t, via)
 
         def hook(ev):
             tgt = ev.target
@@ -291,7 +347,7 @@ def run_cluster(chooser, cfg, fault=None, trace=None):
                     if m in announced and isinstance(inc, int) and u.get("state") == "alive" and inc > announced[m]:
                         announced[m] = inc
             n_before = len(timeline)
-            observe(t, ev.event_type)
+            observe(t, ev.event_type, only=None if tgt is fd else tgt)
             if trace is not None:
                 md = ev.context.get("metadata") or {}
                 trace.append((t, ev.event_type, getattr(tgt, "name", "?"),
@@ -310,8 +366,12 @@ def run_cluster(chooser, cfg, fault=None, trace=None):
         except Exception:
             return None
 
-    return {"timeline": timeline, "findings": findings, "heard": heard, "res": res,
-            "node_events": n_node_events[0], "names": names, "phi_of": phi_of}
+    # a clause broken in the list views is reported separately only when get_member_state does not break it too
+    clauses = {fp.split("/")[1] for fp, _d in found_by["state"]}
+    findings = (found_by["state"] + [x for x in found_by["lists"] if x[0].split("/")[1] not in clauses]
+                + found_by["consistency"])
+    return {"timeline": timeline, "timeline_lists": timeline_lists, "findings": findings, "heard": heard,
+            "res": res, "node_events": n_node_events[0], "names": names, "phi_of": phi_of}
 
 
 def bound_rounds(N, I, S):
@@ -326,10 +386,12 @@ def check_detection(out, cfg, fault):
     deadline = fault[1] + bound_rounds(N, I, S) * I_ns
     found = []
     lat = {}
-    for an in out["names"]:
-        if an == v:
+    flagged = set()
+    for channel, src in (("state", out["timeline"]), ("lists", out.get("timeline_lists", []))):
+      for an in out["names"]:
+        if an == v or an in flagged:
             continue
-        tl = [(t, s) for (t, a, b, s, _via) in out["timeline"] if a == an and b == v]
+        tl = [(t, s) for (t, a, b, s, _via) in src if a == an and b == v]
         # state during [t_i, t_{i+1}) is s_i ; last state holds until the end of the run
         bad_at = None
         for i, (t, s) in enumerate(tl):
@@ -341,10 +403,14 @@ def check_detection(out, cfg, fault):
         for i, (t, s) in enumerate(tl):
             if s == "ALIVE":
                 last_alive_end = tl[i + 1][0] if i + 1 < len(tl) else None
-        lat[an] = ("never" if (tl and tl[-1][1] == "ALIVE") else
-                   (None if last_alive_end is None else round((last_alive_end - fault[1]) / I_ns, 2)))
+        if channel == "state":
+            lat[an] = ("never" if (tl and tl[-1][1] == "ALIVE") else
+                       (None if last_alive_end is None else round((last_alive_end - fault[1]) / I_ns, 2)))
         if bad_at is not None:
-            if (an, v) not in out["heard"]:
+            flagged.add(an)
+            if channel == "lists":
+                shape = "still-listed-in-alive_members"
+            elif (an, v) not in out["heard"]:
                 shape = "observer-never-heard-victim"
             else:
                 # one full round before the deadline: a probe tick lies in between, so a detector that was
@@ -357,9 +423,10 @@ def check_detection(out, cfg, fault):
                 else:
                     shape = "phi-still-below-threshold"
             still = tl[-1][1] == "ALIVE"
+            how = "get_member_state" if channel == "state" else "alive_members"
             found.append((f"Membership/undetected/{shape}",
                           f"N={N} interval={I}s suspicion={S}s phi={PHI}: {v} stopped for good at "
-                          f"t={fault[1] / SEC:.6f}s; {an} still reports it ALIVE later than "
+                          f"t={fault[1] / SEC:.6f}s; {an} still reports it ALIVE ({how}) later than "
                           f"{bound_rounds(N, I, S)} probe rounds after the stop "
                           f"({'still ALIVE at the end of the run, ' + str(rounds) + ' rounds' if still else 'left ALIVE only at t=' + str(last_alive_end / SEC) + 's'})"))
     return found, lat
@@ -698,10 +765,14 @@ def main(tier, seed, only=None):
     I1 = (1.0,)
     cf = []
     if quick:
-        cf.append(("crash-n3", configs(3, I1, ALL_S, ALL_P) + configs(3, (0.5,), (2.0,), ALL_P), lambda N: 4, 1, 1))
+        # suspicion 1 s at interval 1 s: suspicion timeout SHORTER than a probe pass ((N-1) intervals), so news of the
+        # death travels by gossip before the local suspicion matures; crash-n4 (suspicion 2 < 3) has the same relation
+        cf.append(("crash-n3", configs(3, I1, ALL_S, ALL_P) + configs(3, (0.5,), (2.0,), ALL_P)
+                   + configs(3, I1, (1.0,), (8.0,)), lambda N: 4, 1, 1))
         cf.append(("crash-n4", configs(4, I1, (2.0,), ALL_P), lambda N: 4, 1, 1))
     else:
-        cf.append(("crash-n3", configs(3, ALL_I, ALL_S, ALL_P), lambda N: 2 * (N - 1) + 1, 1, 1))
+        cf.append(("crash-n3", configs(3, ALL_I, ALL_S, ALL_P) + configs(3, I1, (1.0,), ALL_P),
+                   lambda N: 2 * (N - 1) + 1, 1, 1))
         cf.append(("crash-n3-dev2", configs(3, I1, (2.0,), ALL_P), lambda N: 3, 2, 8))
         cf.append(("crash-n4", configs(4, ALL_I, ALL_S, ALL_P), lambda N: 2 * (N - 1) + 1, 1, 1))
         cf.append(("crash-n5", configs(5, I1, (2.0,), ALL_P), lambda N: 2 * (N - 1) + 1, 1, 2))
@@ -773,6 +844,10 @@ def replay(data):
     print("view changes:")
     for (t, a, b, s, via) in out["timeline"]:
         print(f"  t={t / SEC:.6f}s {a} reports {b} {s} (while handling {via})")
+    if out["timeline_lists"] != out["timeline"]:
+        print("view changes as read from alive_members / suspected_members / dead_members (differ from the above):")
+        for (t, a, b, s, via) in out["timeline_lists"]:
+            print(f"  t={t / SEC:.6f}s {a} lists {b} as {s} (while handling {via})")
     f = list(out["findings"])
     if rep["driver"] == "crash":
         f2, lat = check_detection(out, cfg, fault)
